@@ -23,7 +23,7 @@ LEVEL = "model_checking"
 
 def cli_args(c):
     g = c["geometry"]
-    a = ["--geometry", g, "--problem", c["problem"], "--alpha_coeff", 1, "--beta_coeff", g % 2,
+    a = ["--geometry", g, "--problem", c["problem"], "--alpha_coeff", c.get("alpha", 1), "--beta_coeff", c.get("beta", g % 2),
          "--kappa_eps", "0.0" if g == 0 else "0.3", "--delta_e", "1.4" if g == 2 else ("0.2" if g == 1 else "0.0"),
          "--alpha_jump", "0.66", "--R0", "1e-5", "--verbose", 0,
          "--nr_exp", c["nr_exp"], "--ntheta_exp", -1 if c["ntheta_exp"] == 0 else c["ntheta_exp"], "--anisotropic_factor", 0,
@@ -82,7 +82,7 @@ def run(rep, tier):
     seen = set()
     for depth, num in ((2, 150 if thorough else 40), (5, 400 if thorough else 60), (9, 400 if thorough else 40)):
         c = os.path.join(vlib.BUILD, "cfg", "optionspace_%d.cfg" % depth)
-        open(c, "w").write("SPECIFICATION Spec\nCONSTANTS Depth = %d\nINVARIANTS RuleSound Emit\n" % depth)
+        open(c, "w").write("SPECIFICATION Spec\nCONSTANTS\n  Depth = %d\n  Mode = \"all\"\nINVARIANTS RuleSound Emit\n" % depth)
         g = vlib.tlc("OptionSpace", c, simulate=num, depth=depth + 1, workers=2, tag="c20opt%d" % depth)
         if g.rc != 0:
             if g.rc == 12:
